@@ -316,12 +316,20 @@ theorem success_means_all_generated (R : Renamer σ) (gen : Nat → Gen) :
 
 /-! ### a conflict-free plan succeeds (name mode) -/
 
+/-- the path `b` has been vacated before position `k`: it is the path of an earlier file of the list whose
+    generated name differs (so that file has been renamed away by then) -/
+def Vacated (files : List FileRec) (gen : Nat → Gen) (k : Nat) (b : APath) : Prop :=
+  ∃ (j : Nat) (fj : FileRec) (pj : PurePath), j < k ∧ files[j]? = some fj ∧ gen j = .path pj ∧ pj ≠ fj.rel ∧
+    b = absKey fj.inputDir fj.rel
+
 /-- a **free** name-mode plan: every file gets a path; a changed one has the name-mode shape and a
-    destination that does not exist in the initial tree; the sources exist and are pairwise different
-    entries; the destinations are pairwise different -/
+    destination that is free at its turn — it does not exist in the initial tree, or it is the path of an
+    earlier file that has been renamed away (an acyclic chain `b → c, a → b` visited from its far end); the
+    sources exist and are pairwise different entries; the destinations are pairwise different -/
 structure FreePlan (base : FS) (files : List FileRec) (gen : Nat → Gen) : Prop where
   gens : ∀ (k : Nat) (f : FileRec), files[k]? = some f → ∃ p, gen k = .path p ∧
-      (p = f.rel ∨ (C05.NameCall base f.inputDir f.rel p ∧ lexists base (absKey f.inputDir p) = false))
+      (p = f.rel ∨ (C05.NameCall base f.inputDir f.rel p ∧
+        (lexists base (absKey f.inputDir p) = false ∨ Vacated files gen k (absKey f.inputDir p))))
   srcs : ∀ (k : Nat) (f : FileRec), files[k]? = some f → lexists base (absKey f.inputDir f.rel) = true
   srcDistinct : ∀ (k₁ k₂ : Nat) (f₁ f₂ : FileRec), k₁ < k₂ → files[k₁]? = some f₁ → files[k₂]? = some f₂ →
       absKey f₁.inputDir f₁.rel ≠ absKey f₂.inputDir f₂.rel
@@ -333,7 +341,11 @@ structure FreePlan (base : FS) (files : List FileRec) (gen : Nat → Gen) : Prop
 def FreeInv (base : FS) (all : List FileRec) (gen : Nat → Gen) (k : Nat) (d : DryState) : Prop :=
   d.base = base ∧
   (∀ x ∈ d.removed, ∃ (k' : Nat) (f' : FileRec), k' < k ∧ all[k']? = some f' ∧ x = absKey f'.inputDir f'.rel) ∧
-  (∀ x ∈ d.created, ∃ (k' : Nat) (f' : FileRec) (p' : PurePath), k' < k ∧ all[k']? = some f' ∧ gen k' = .path p' ∧ p' ≠ f'.rel ∧ x = absKey f'.inputDir p')
+  (∀ x ∈ d.created, ∃ (k' : Nat) (f' : FileRec) (p' : PurePath), k' < k ∧ all[k']? = some f' ∧ gen k' = .path p' ∧ p' ≠ f'.rel ∧ x = absKey f'.inputDir p') ∧
+  (∀ (j : Nat) (fj : FileRec) (pj : PurePath), j < k → all[j]? = some fj → gen j = .path pj → pj ≠ fj.rel →
+    (absKey fj.inputDir fj.rel ∈ d.removed ∨
+      ∃ (l : Nat) (fl : FileRec) (pl : PurePath), l < k ∧ all[l]? = some fl ∧ gen l = .path pl ∧ pl ≠ fl.rel ∧
+        absKey fl.inputDir pl = absKey fj.inputDir fj.rel))
 
 theorem nameCall_contained (base : FS) (hl : LinkFree base) (dir : APath) (src dst : PurePath)
     (hG : C05.NameCall base dir src dst) : contained base dir dst = .ok true ∧ dst ≠ src := by
@@ -372,19 +384,35 @@ theorem dry_firstPass_free (base : FS) (hl : LinkFree base) (all : List FileRec)
     have hdrop' : all.drop (i + 1) = rest := by
       have := congrArg (fun l => l.drop 1) hdrop
       simpa [List.drop_drop, Nat.add_comm] using this
-    have hmono : ∀ d, FreeInv base all gen i d → FreeInv base all gen (i + 1) d := by
-      rintro d ⟨hb, hr, hc⟩
-      refine ⟨hb, ?_, ?_⟩
+    have hmono : ∀ d, FreeInv base all gen i d → (∃ p0, gen i = .path p0 ∧ p0 = f.rel) → FreeInv base all gen (i + 1) d := by
+      rintro d ⟨hb, hr, hc, hv⟩ hsame
+      refine ⟨hb, ?_, ?_, ?_⟩
       · intro x hx; obtain ⟨k', f', hk, h⟩ := hr x hx; exact ⟨k', f', by omega, h⟩
       · intro x hx; obtain ⟨k', f', p', hk, h⟩ := hc x hx; exact ⟨k', f', p', by omega, h⟩
+      · intro j fj pj hj hfj hgj hnej
+        have hji : j < i := by
+          rcases Nat.lt_succ_iff_lt_or_eq.mp hj with h | h
+          · exact h
+          · subst h
+            rw [hfi] at hfj
+            have : f = fj := Option.some.inj hfj
+            subst this
+            obtain ⟨p0, hg0, hs0⟩ := hsame
+            rw [hg0] at hgj
+            have : p0 = pj := by injection hgj
+            subst this
+            exact absurd hs0 hnej
+        rcases hv j fj pj hji hfj hgj hnej with h | ⟨l, fl, pl, hl', h⟩
+        · exact Or.inl h
+        · exact Or.inr ⟨l, fl, pl, by omega, h⟩
     obtain ⟨p, hgp, hcase⟩ := hfree.gens i f hfi
     rw [firstPass, planned]
     simp only [hgp]
     rcases hcase with hsame | ⟨hG, hfreeDst⟩
     · simp only [hsame, if_true, List.nil_append]
-      exact ih (i + 1) r hdrop' (hmono _ hinv)
+      exact ih (i + 1) r hdrop' (hmono _ hinv ⟨p, hgp, hsame⟩)
     · obtain ⟨hcont, hne⟩ := nameCall_contained base hl f.inputDir f.rel p hG
-      obtain ⟨hb, hrem, hcre⟩ := hinv
+      obtain ⟨hb, hrem, hcre, hvac⟩ := hinv
       simp only [hne, if_false]
       have hview : dryRenamer.view r.st = base := hb
       rw [hview, hcont]
@@ -393,13 +421,19 @@ theorem dry_firstPass_free (base : FS) (hl : LinkFree base) (all : List FileRec)
       obtain ⟨hkne, hcall⟩ := C05.dry_name_call base r.st f.inputDir f.rel p false hG
       have hvd : C05.vexists r.st (absKey f.inputDir p) = false := by
         unfold C05.vexists
-        rw [hb, hfreeDst]
-        have : r.st.created.contains (absKey f.inputDir p) = false := by
+        have hcr : r.st.created.contains (absKey f.inputDir p) = false := by
           rw [Bool.eq_false_iff]
           intro hc
           obtain ⟨k', f', p', hk, hf', hg', hne', hx⟩ := hcre _ (List.contains_iff_mem.mp hc)
           exact hfree.dstDistinct k' i f' f p' p hk hf' hfi hg' hgp hne' hne hx.symm
-        rw [this]; rfl
+        rcases hfreeDst with hfd | ⟨j, fj, pj, hj, hfj, hgj, hnej, hbj⟩
+        · rw [hb, hfd, hcr]; rfl
+        · -- the destination is the path of an earlier file, renamed away: it is marked removed
+          have : r.st.removed.contains (absKey f.inputDir p) = true := by
+            rcases hvac j fj pj hj hfj hgj hnej with h | ⟨l, fl, pl, hl', hfl, hgl, hnel, heq⟩
+            · rw [hbj]; exact List.contains_iff_mem.mpr h
+            · exact absurd (heq.trans hbj.symm) (hfree.dstDistinct l i fl f pl p hl' hfl hfi hgl hgp hnel hne)
+          rw [this]; simp
       have hvs : C05.vexists r.st (absKey f.inputDir f.rel) = true := by
         unfold C05.vexists
         rw [hb, hfree.srcs i f hfi]
@@ -425,7 +459,7 @@ theorem dry_firstPass_free (base : FS) (hl : LinkFree base) (all : List FileRec)
       simp only
       have hinv' : FreeInv base all gen (i + 1) r1.st := by
         show FreeInv base all gen (i + 1) d'
-        refine ⟨hb, ?_, ?_⟩
+        refine ⟨hb, ?_, ?_, ?_⟩
         · intro x hx
           have hx' := (List.mem_filter.mp hx).1
           rw [List.mem_append, List.mem_singleton] at hx'
@@ -438,6 +472,25 @@ theorem dry_firstPass_free (base : FS) (hl : LinkFree base) (all : List FileRec)
           rcases hx' with hx' | hx'
           · obtain ⟨k', f', p', hk, h⟩ := hcre x hx'; exact ⟨k', f', p', by omega, h⟩
           · exact ⟨i, f, p, by omega, hfi, hgp, hne, hx'⟩
+        · -- every renamed source is marked removed, unless a destination has taken its place
+          intro j fj pj hj hfj hgj hnej
+          by_cases hji : j = i
+          · subst hji
+            rw [hfi] at hfj
+            have : f = fj := Option.some.inj hfj
+            subst this
+            left
+            show absKey f.inputDir f.rel ∈ (r.st.removed ++ [absKey f.inputDir f.rel]).filter (· ≠ absKey f.inputDir p)
+            rw [List.mem_filter]
+            exact ⟨by simp, by simpa using hkne⟩
+          · rcases hvac j fj pj (by omega) hfj hgj hnej with h | ⟨l, fl, pl, hl', h⟩
+            · by_cases heq : absKey fj.inputDir fj.rel = absKey f.inputDir p
+              · exact Or.inr ⟨i, f, p, by omega, hfi, hgp, hne, heq.symm⟩
+              · left
+                show absKey fj.inputDir fj.rel ∈ (r.st.removed ++ [absKey f.inputDir f.rel]).filter (· ≠ absKey f.inputDir p)
+                rw [List.mem_filter]
+                exact ⟨by simp [h], by simpa using heq⟩
+            · exact Or.inr ⟨l, fl, pl, by omega, h⟩
       obtain ⟨r', h1, h2, h3⟩ := ih (i + 1) r1 hdrop' hinv'
       refine ⟨r', h1, ?_, ?_⟩
       · rw [h2]; simp [r1, moveOf]
@@ -469,7 +522,7 @@ theorem free_plan_succeeds_name_mode (base : FS) (hw : WF base) (hl : LinkFree b
     · exact hc.1
   obtain ⟨hev, hout⟩ := C05.dry_run_predicts_name_mode base hw hl files gen strategy answers hplan hnocustom
   have hinv0 : FreeInv base files gen 0 ({ base := base } : DryState) :=
-    ⟨rfl, fun x hx => by simp at hx, fun x hx => by simp at hx⟩
+    ⟨rfl, fun x hx => by simp at hx, fun x hx => by simp at hx, fun j _ _ hj => absurd hj (Nat.not_lt_zero j)⟩
   obtain ⟨r', h1, h2, h3⟩ := dry_firstPass_free base hl files gen hfree files 0 { st := { base := base } } (by simp) hinv0
   have hdry : execute dryRenamer { base := base } files gen strategy answers = (r', .done) := by
     unfold execute
@@ -504,11 +557,11 @@ example :
     | 0, hf =>
       have : f = ⟨["in".toList], ⟨false, ["a".toList]⟩⟩ := by simpa [files] using hf.symm
       subst this
-      exact ⟨⟨false, ["x".toList]⟩, rfl, Or.inr ⟨nc _ _ (by decide) (by decide) (by decide) (by decide) (by decide), by decide⟩⟩
+      exact ⟨⟨false, ["x".toList]⟩, rfl, Or.inr ⟨nc _ _ (by decide) (by decide) (by decide) (by decide) (by decide), Or.inl (by decide)⟩⟩
     | 1, hf =>
       have : f = ⟨["in".toList], ⟨false, ["b".toList]⟩⟩ := by simpa [files] using hf.symm
       subst this
-      exact ⟨⟨false, ["y".toList]⟩, rfl, Or.inr ⟨nc _ _ (by decide) (by decide) (by decide) (by decide) (by decide), by decide⟩⟩
+      exact ⟨⟨false, ["y".toList]⟩, rfl, Or.inr ⟨nc _ _ (by decide) (by decide) (by decide) (by decide) (by decide), Or.inl (by decide)⟩⟩
     | k + 2, hf => simp [files] at hf
   · intro k f hf
     match k, hf with
@@ -539,6 +592,67 @@ example :
     | _, k + 2, _, _, h2, _, _ => simp [files] at h2
     | k + 1, 1, hlt, _, _, _, _ => omega
     | _, 0, hlt, _, _, _, _ => omega
+
+/-- … and so is the chain `b → c`, `a → b` visited from its far end: the second destination is the path the first
+    file has vacated -/
+example :
+    let base : FS := [⟨["in".toList], 1, .dir, 0⟩, ⟨["in".toList, "a".toList], 2, .file, 1⟩,
+                      ⟨["in".toList, "b".toList], 3, .file, 2⟩]
+    let files : List FileRec := [⟨["in".toList], ⟨false, ["b".toList]⟩⟩, ⟨["in".toList], ⟨false, ["a".toList]⟩⟩]
+    let gen : Nat → Gen := fun i => if i = 0 then .path ⟨false, ["c".toList]⟩ else .path ⟨false, ["b".toList]⟩
+    FreePlan base files gen := by
+  intro base files gen
+  have nc : ∀ (n m : Name), n ≠ m → n ≠ dotdot → m ≠ dotdot → isDirAt base (["in".toList] ++ [] ++ [n]) = false →
+      isDirAt base (["in".toList] ++ [] ++ [m]) = false →
+      C05.NameCall base ["in".toList] ⟨false, [n]⟩ ⟨false, [m]⟩ := by
+    intro n m h1 h2 h3 h4 h5
+    refine ⟨[], n, m, rfl, rfl, h1, h2, h3, by simp, ?_, h4, h5⟩
+    intro k hk
+    have : k = 0 := by simpa using hk
+    subst this; decide
+  constructor
+  · intro k f hf
+    match k, hf with
+    | 0, hf =>
+      have : f = ⟨["in".toList], ⟨false, ["b".toList]⟩⟩ := by simpa [files] using hf.symm
+      subst this
+      exact ⟨⟨false, ["c".toList]⟩, rfl, Or.inr ⟨nc _ _ (by decide) (by decide) (by decide) (by decide) (by decide), Or.inl (by decide)⟩⟩
+    | 1, hf =>
+      have : f = ⟨["in".toList], ⟨false, ["a".toList]⟩⟩ := by simpa [files] using hf.symm
+      subst this
+      exact ⟨⟨false, ["b".toList]⟩, rfl, Or.inr ⟨nc _ _ (by decide) (by decide) (by decide) (by decide) (by decide),
+        Or.inr ⟨0, ⟨["in".toList], ⟨false, ["b".toList]⟩⟩, ⟨false, ["c".toList]⟩, by omega, rfl, rfl, by decide, by decide⟩⟩⟩
+    | k + 2, hf => simp [files] at hf
+  · intro k f hf
+    match k, hf with
+    | 0, hf =>
+      have : f = ⟨["in".toList], ⟨false, ["b".toList]⟩⟩ := by simpa [files] using hf.symm
+      subst this; decide
+    | 1, hf =>
+      have : f = ⟨["in".toList], ⟨false, ["a".toList]⟩⟩ := by simpa [files] using hf.symm
+      subst this; decide
+    | k + 2, hf => simp [files] at hf
+  · intro k₁ k₂ f₁ f₂ hlt h1 h2
+    match k₁, k₂, hlt, h1, h2 with
+    | 0, 1, _, h1, h2 =>
+      have e1 : f₁ = ⟨["in".toList], ⟨false, ["b".toList]⟩⟩ := by simpa [files] using h1.symm
+      have e2 : f₂ = ⟨["in".toList], ⟨false, ["a".toList]⟩⟩ := by simpa [files] using h2.symm
+      subst e1; subst e2; decide
+    | _, k + 2, _, _, h2 => simp [files] at h2
+    | k + 1, 1, hlt, _, _ => omega
+    | _, 0, hlt, _, _ => omega
+  · intro k₁ k₂ f₁ f₂ p₁ p₂ hlt h1 h2 g1 g2 _ _
+    match k₁, k₂, hlt, h1, h2, g1, g2 with
+    | 0, 1, _, h1, h2, g1, g2 =>
+      have e1 : f₁ = ⟨["in".toList], ⟨false, ["b".toList]⟩⟩ := by simpa [files] using h1.symm
+      have e2 : f₂ = ⟨["in".toList], ⟨false, ["a".toList]⟩⟩ := by simpa [files] using h2.symm
+      have e3 : p₁ = ⟨false, ["c".toList]⟩ := by simpa [gen] using g1.symm
+      have e4 : p₂ = ⟨false, ["b".toList]⟩ := by simpa [gen] using g2.symm
+      subst e1; subst e2; subst e3; subst e4; decide
+    | _, k + 2, _, _, h2, _, _ => simp [files] at h2
+    | k + 1, 1, hlt, _, _, _, _ => omega
+    | _, 0, hlt, _, _, _, _ => omega
+
 
 /-! ### what one reported rename did -/
 
@@ -742,6 +856,20 @@ theorem nameCall_transfer {base fs : FS} (hd : ∀ p, isDirAt fs p = isDirAt bas
   obtain ⟨sp, n, m, h1, h2, h3, h4, h5, h6, h7, h8, h9⟩ := hG
   exact ⟨sp, n, m, h1, h2, h3, h4, h5, h6, fun k hk => by rw [hd]; exact h7 k hk, by rw [hd]; exact h8, by rw [hd]; exact h9⟩
 
+theorem nameCall_dstKey_ne_nil {base : FS} {dir : APath} {src dst : PurePath} (hG : C05.NameCall base dir src dst) :
+    absKey dir dst ≠ [] := by
+  obtain ⟨sp, n, m, _, rfl, _, _, hm, hsp, _, _, _⟩ := hG
+  have hplain : ∀ c ∈ sp ++ [m], c ≠ dotdot := by
+    intro c hc
+    rw [List.mem_append, List.mem_singleton] at hc
+    rcases hc with hc | hc
+    · exact hsp c hc
+    · rw [hc]; exact hm
+  unfold absKey
+  simp only [Bool.false_eq_true, if_false]
+  rw [lexNorm_plain _ _ hplain]
+  simp
+
 theorem real_firstPass_free (base : FS) (hwb : WF base) (all : List FileRec) (gen : Nat → Gen)
     (hfree : FreePlan base all gen) :
     ∀ (rest : List FileRec) (i : Nat) (r : Run RealState), all.drop i = rest → RealInv base all gen i r.st →
@@ -824,15 +952,17 @@ theorem real_firstPass_free (base : FS) (hwb : WF base) (all : List FileRec) (ge
         rw [Bool.eq_false_iff]
         intro hex
         rcases (lexists_iff _).mp hex with h0 | ⟨e', he', hp'⟩
-        · rw [h0] at hfreeDst; simp [lexists] at hfreeDst
+        · exact nameCall_dstKey_ne_nil hG h0
         · obtain ⟨e0, he0, q, hm, rfl⟩ := (hmem e').mp he'
           simp only at hp'
-          rcases hm with ⟨j, fj, pj, hj, hfj, hgj, hnej, _, hq⟩ | ⟨_, hq⟩
+          rcases hm with ⟨j, fj, pj, hj, hfj, hgj, hnej, _, hq⟩ | ⟨hno, hq⟩
           · rw [hq] at hp'
             exact hfree.dstDistinct j i fj f pj p hj hfj hfi hgj hgp hnej hne hp'
           · rw [hq] at hp'
-            have : lexists base (absKey f.inputDir p) = true := (lexists_iff _).mpr (Or.inr ⟨e0, he0, hp'⟩)
-            rw [hfreeDst] at this; exact absurd this (by decide)
+            rcases hfreeDst with hfd | ⟨j, fj, pj, hj, hfj, hgj, hnej, hbj⟩
+            · have : lexists base (absKey f.inputDir p) = true := (lexists_iff _).mpr (Or.inr ⟨e0, he0, hp'⟩)
+              rw [hfd] at this; exact absurd this (by decide)
+            · exact hno j fj pj hj hfj hgj hnej (hp'.trans hbj)
       obtain ⟨hok, hfault', hw', hl', hdirs'⟩ := name_call_step r.st hw hl hfault f.inputDir f.rel p hGs hsrc hdst
       obtain ⟨ea, hfa, hka, hmem'⟩ := name_call_effect r.st hw hl hfault f.inputDir f.rel p false hGs hok
       -- the pipeline records the rename and goes on
@@ -868,8 +998,11 @@ theorem real_firstPass_free (base : FS) (hwb : WF base) (all : List FileRec) (ge
           subst this
           rcases hcj with hcj | ⟨_, hfj'⟩
           · exact hnej hcj
-          · rw [← hq, hq0, hfree.srcs i f hfi] at hfj'
-            exact absurd hfj' (by decide)
+          · have hbe : absKey fj.inputDir pj = absKey f.inputDir f.rel := hq.symm.trans hq0
+            rcases hfj' with hfd | ⟨l, fl, pl, hl', hfl, _, _, hbl⟩
+            · rw [hbe, hfree.srcs i f hfi] at hfd
+              exact absurd hfd (by decide)
+            · exact hfree.srcDistinct l i fl f (by omega) hfl hfi (hbl.symm.trans hbe)
         · rw [← hq]; exact hq0
       have hea' : ea = e0 := by
         rw [hea, hq0, ← he0path]
@@ -924,8 +1057,10 @@ theorem real_firstPass_free (base : FS) (hwb : WF base) (all : List FileRec) (ge
               subst this
               rcases hcj with hcj | ⟨_, hfj'⟩
               · exact hnej hcj
-              · rw [heq, hfree.srcs i f hfi] at hfj'
-                exact absurd hfj' (by decide)
+              · rcases hfj' with hfd | ⟨l, fl, pl, hl', hfl, _, _, hbl⟩
+                · rw [heq, hfree.srcs i f hfi] at hfd
+                  exact absurd hfd (by decide)
+                · exact hfree.srcDistinct l i fl f (by omega) hfl hfi (hbl.symm.trans heq)
             · simp only
               rw [hqj]
               exact fun heq => hfree.dstDistinct j i fj f pj p (by omega) hfj hfi hgj hgp hnej hne heq
@@ -936,8 +1071,10 @@ theorem real_firstPass_free (base : FS) (hwb : WF base) (all : List FileRec) (ge
           · simp only; rw [hq]; exact hnotsrc
           · simp only; rw [hq]
             intro heq
-            have : lexists base (absKey f.inputDir p) = true := (lexists_iff _).mpr (Or.inr ⟨e1, he1, heq⟩)
-            rw [hfreeDst] at this; exact absurd this (by decide)
+            rcases hfreeDst with hfd | ⟨j, fj, pj, hj, hfj, hgj, hnej, hbj⟩
+            · have : lexists base (absKey f.inputDir p) = true := (lexists_iff _).mpr (Or.inr ⟨e1, he1, heq⟩)
+              rw [hfd] at this; exact absurd this (by decide)
+            · exact hno j fj pj (by omega) hfj hgj hnej (heq.trans hbj)
 
 /-- **C02 (the plan applied, name mode)**: on a well-formed link-free tree, the real run of a free plan — any
     file list, processing order, strategy — ends successfully, and the final tree consists exactly of the
